@@ -197,6 +197,10 @@ pub fn check_sums(ep: &EnergyPerformance, sc: &Scales) -> CheckResult {
     ensure!(close(s, bal.prod.an as f64, te), "sum_src=prod", "Σ_src production {} != production {}", s, bal.prod.an);
     let s: f64 = bal.prod.by_cr.values().map(|v| *v as f64).sum();
     ensure!(close(s, bal.prod.an as f64, te), "sum_cr=prod", "Σ_cr production {} != production {}", s, bal.prod.an);
+    // whole building: produced-and-used energy by source = Σ over carriers of the produced-and-used energy
+    let s: f64 = bal.prod.epus_by_src.values().map(|v| *v as f64).sum();
+    let e: f64 = crs.iter().map(|b| b.prod.epus_an as f64).sum();
+    ensure!(close(s, e, te), "sum_src(epus)", "Σ_src produced-and-used energy {} != Σ over carriers {}", s, e);
     let s = bal.del.grid as f64 + bal.del.onst as f64 + bal.used.cgnus as f64;
     ensure!(close(s, bal.del.an as f64, te), "del=grid+onst+cgn", "delivered {} != grid {} + on-site {} + cogeneration input {}", bal.del.an, bal.del.grid, bal.del.onst, bal.used.cgnus);
     let s = bal.exp.grid as f64 + bal.exp.nepus as f64;
@@ -235,6 +239,9 @@ pub fn check_sums(ep: &EnergyPerformance, sc: &Scales) -> CheckResult {
             let s = r3(&b.we.exp_grid_a)[j] + r3(&b.we.exp_nepus_a)[j];
             ensure!(close(s, r3(&b.we.exp_a)[j], tw), "cr:we.exp_a", "{}: weighted exported (step A) [{}] {} != grid {} + nEPB {}", car.name(), j, r3(&b.we.exp_a)[j], r3(&b.we.exp_grid_a)[j], r3(&b.we.exp_nepus_a)[j]);
         }
+        // produced-and-used energy by source adds up to the carrier's produced-and-used energy
+        let s: f64 = b.prod.epus_by_src_an.values().map(|v| *v as f64).sum();
+        ensure!(close(s, b.prod.epus_an as f64, t), "cr:sum_src(epus)", "{}: Σ_src produced-and-used energy {} != produced-and-used energy {}", car.name(), s, b.prod.epus_an);
         for (src, m) in &b.prod.epus_by_srv_by_src_an {
             let s: f64 = m.values().map(|v| *v as f64).sum();
             let e = b.prod.epus_by_src_an.get(src).cloned().unwrap_or(0.0) as f64;
